@@ -258,7 +258,14 @@ func TestVerifCtl(t *testing.T) {
 // writeSlices: VERIF_SLICE_KINDS (comma separated: job,batch,life,disp; default all) selects the projections
 func writeSlices(sw *bufio.Writer, s *vt.Sched, tag string) int {
 	kinds := os.Getenv("VERIF_SLICE_KINDS")
-	want := func(k string) bool { return kinds == "" || strings.Contains(","+kinds+",", ","+k+",") }
+	want := func(k string) bool {
+		// apimix overlaps control calls (Stop with Resume with Restart ...): outside the environment
+		// assumptions of the dispatcher / wake-up / lifecycle slices; judged for races only
+		if (strings.HasPrefix(tag, "apimix:") || strings.HasPrefix(tag, "ctlrace:")) && k != "hb" && k != "lock" {
+			return false
+		}
+		return kinds == "" || strings.Contains(","+kinds+",", ","+k+",")
+	}
 	n := 0
 	if want("job") {
 		n += writeJobSlices(sw, s, tag)
